@@ -585,6 +585,8 @@ C14_killsent(g, ln) ==
    (g.pendKill # 0 /\ ln.k \notin InjKinds
       /\ ~(ln.k = "ev" /\ (ln.x = "hook_success:before_signal" \/ ln.x = "hook_failure:before_signal")))
      => ln.k = "signal" /\ ln.p = g.pendKill /\ ln.a = SIGKILL
+\* a hook runs for the watcher it was configured on, and for no other
+C14_own(g, ln) == (ln.k = "hook") => HookCfg(g, ln.w, ln.x).o # "absent"
 C14_events(g, ln) ==
    /\ (g.hookOpen # "" /\ ln.k # "exc") =>
          ln.k = "ev" /\ (ln.x = "hook_success:" \o g.hookOpen \/ ln.x = "hook_failure:" \o g.hookOpen)
@@ -733,7 +735,7 @@ Clauses(g, o, ln, o2, g2) ==
     C11_unchanged |-> C11_unchanged(g, ln, o2),
     C13_wid |-> C13_wid(o, o2),
     C14_startgate |-> C14_startgate(g, o, o2), C14_siggate |-> C14_siggate(g, ln),
-    C14_events |-> C14_events(g, ln), C14_killsent |-> C14_killsent(g, ln),
+    C14_events |-> C14_events(g, ln), C14_killsent |-> C14_killsent(g, ln), C14_own |-> C14_own(g, ln),
     C15_dir |-> C15_dir(g, o2, ln), C15_views |-> C15_views(o, ln), C15_addrm |-> C15_addrm(g, o, ln, o2),
     C15_reach |-> C15_reach(g, ln),
     C18_confine |-> C18_confine(g, o, ln), C18_exact |-> C18_exact(g, ln), C18_killsig |-> C18_killsig(g, g2, o, o2),
